@@ -14,6 +14,7 @@ from fractions import Fraction
 import numpy as np
 
 LEVEL = "proof"
+EXTRA_PROPS = ["QuantemModel.Props.C03Ext"]   # growth 6: refinement to the calibration skeleton machine, negative steps
 MANIFEST_ENTRY = {
     "category": "proof",
     "text": "Lean 4 theorems over an executable state-machine model of Dataset/Dataset2d/3d/4d/4dstem (from_array, copy, "
@@ -1552,6 +1553,326 @@ def run_reject(ctx, drv):
                                   + ", ".join(f"{c}{tuple(sh)}:{dt}" for c, sh, dt in bases))
 
 
+
+# ------------------------------------------------------------------------------------------
+# growth 6: fixed blocks (independent of VERIF_SEED) along the round-6 themes
+
+def base_req(cls, shape, dtype, a=None, layout="C"):
+    """a dataset with pairwise different per-axis length / origin / sampling / units"""
+    nd = len(shape)
+    if a is None:
+        a = ((np.arange(int(np.prod(shape)), dtype=np.int64).reshape(shape) * 3) % 11).astype(dtype)
+    return {"op": "new", "cls": cls, "array": dict(arr_json(a), layout=layout), "dtype": dtype,
+            "origin": {"l": [fj(Fraction(2 * k + 1, 2)) for k in range(nd)]},
+            "sampling": {"l": [fj(Fraction(k + 2, 4)) for k in range(nd)]}, "units": {"l": [UNITS[k] for k in range(nd)]}}
+
+
+def signed_items(n):
+    """per-axis alphabet of the sign / last-index theme: negative integers, the last index, reversed and negatively stepped
+    slices (also with negative bounds, a step of +-length, an empty selection starting AT the length), lists with negative entries"""
+    return [{"i": -1}, {"i": -n}, {"i": n - 1},
+            {"s": [None, None, -1]}, {"s": [None, None, -2]}, {"s": [-2, None, -1]}, {"s": [None, 0, -1]}, {"s": [1, -1, None]},
+            {"s": [-1, None, None]}, {"s": [n, None, None]}, {"s": [None, None, -n]}, {"s": [None, None, n]}, {"s": [-1, -n - 1, -1]},
+            {"l": [-1, 0]}, {"l": [n - 1]}, {"l": [-n, -1, -n]}]
+
+
+def run_signed_index(ctx, drv):
+    """negative steps / negative indices / reversed slices / the last index of every axis / index == length, as a fixed
+    enumeration: the full product of `signed_items` on a Dataset2d with H > W, one varying axis (others rotating through
+    full / -1 / ::-1, an Ellipsis in front, behind or between) on a Dataset3d and on a W > H Dataset2d, and histories that go
+    on with a reversed dataset (negative sampling) through a second negative step, bin, crop and fourier_resample"""
+    n = 0
+    full = {"s": [None, None, None]}
+
+    def one(new, items, follow=False, bare=False, then=()):
+        nonlocal n
+        gop = {"op": "getitem", "ix": copy.deepcopy(items), "follow": bool(follow or then)}
+        if bare and len(items) == 1:
+            gop["bare"] = True
+        if n % 4 == 3:          # NumPy integer / integer-array forms of the same items
+            for it in gop["ix"]:
+                if isinstance(it, dict) and ("i" in it or "l" in it):
+                    it["np"] = True
+        ops = [gop] + [copy.deepcopy(o) for o in then]
+        run_history(ctx, drv, new, ops, stream="signed-index", max_ops=len(ops))
+        n += 1
+    # (a) full product, H > W
+    sh = [5, 3]
+    new = base_req("Dataset2d", sh, "int32", layout="perm")
+    for a in signed_items(sh[0]):
+        one(new, [a], bare=True)
+        for b in signed_items(sh[1]):
+            if "l" in a and "l" in b:
+                continue
+            if "i" in a and "i" in b:
+                continue                    # 0-d result: outside the quantifier
+            one(new, [a, b])
+    # (b) one axis varies, the others rotate; Ellipsis positions; W > H and 3-D
+    rot = [full, {"i": -1}, {"s": [None, None, -1]}]
+    for cls, sh, lay in (("Dataset2d", [3, 5], "F"), ("Dataset3d", [3, 4, 5], "T"), ("Dataset", [2, 3, 4, 2], "flip")):
+        new = base_req(cls, sh, "int16", layout=lay)
+        nd = len(sh)
+        k = 0
+        for ax in range(nd):
+            for it in signed_items(sh[ax]):
+                items = [copy.deepcopy(rot[(k + j) % 3]) for j in range(nd)]
+                items[ax] = it
+                if all(isinstance(x, dict) and "i" in x for x in items):
+                    items[(ax + 1) % nd] = full
+                k += 1
+                one(new, items)
+                if k % 3 == 0:              # the trailing axes addressed through an Ellipsis (in front / in the middle)
+                    one(new, ["e"] + items[ax:])
+                elif k % 3 == 1 and ax + 1 < nd:
+                    one(new, items[: ax + 1] + ["e"])
+                elif nd >= 3:
+                    one(new, items[:1] + ["e"] + items[2:])
+    # (c) index == length / one below -length at EVERY axis position (rejected), inside a history that goes on
+    new = base_req("Dataset3d", [3, 4, 5], "uint8", layout="step")
+    for ax in range(3):
+        L = [3, 4, 5][ax]
+        for bad in ({"i": L}, {"i": -L - 1}, {"l": [0, L]}, {"l": [-L - 1]}, {"i": L, "np": True}):
+            items = [full] * 3
+            items[ax] = bad
+            one(new, items, then=())
+            run_history(ctx, drv, new, [{"op": "getitem", "ix": copy.deepcopy(items), "follow": False},
+                                        {"op": "getitem", "ix": [{"s": [None, None, -1]}] * (ax + 1), "follow": True},
+                                        {"op": "bin", "f": {"one": 2}, "axes": {"one": ax}, "mean": False, "inplace": True}],
+                        stream="signed-index", max_ops=3)
+            n += 1
+    # (d) going on with a reversed dataset: negative sampling through a second negative step and the calibration formulas
+    then_sets = [
+        [{"op": "getitem", "ix": [{"s": [None, None, -2]}], "follow": True}, {"op": "bin", "f": {"one": 2}, "axes": {"one": 0}, "mean": False, "inplace": True}],
+        [{"op": "bin", "f": {"many": [2, 3]}, "axes": {"many": [-1, 0]}, "mean": True, "inplace": False, "follow": True},
+         {"op": "getitem", "ix": ["e", {"s": [None, None, -1]}], "follow": True}],
+        [{"op": "crop", "widths": [[1, -1]], "axes": {"one": -1}, "inplace": True}, {"op": "resample", "arg": {"out": [7]}, "axes": {"one": 0}, "inplace": True}],
+        [{"op": "pad", "arg": {"pair": [1, 2]}, "inplace": False, "follow": True}, {"op": "resample", "arg": {"f1": "1/2"}, "axes": None, "inplace": False, "follow": True}],
+        [{"op": "copy", "follow": True}, {"op": "elem", "what": "sampling*=2"}, {"op": "getitem", "ix": [{"i": -1}], "follow": True}],
+    ]
+    for cls, sh in (("Dataset2d", [6, 4]), ("Dataset3d", [4, 6, 5])):
+        new = base_req(cls, sh, "int32", layout="ro")
+        for rev in ([{"s": [None, None, -1]}], [full, {"s": [None, None, -1]}], [{"s": [None, None, -1]}] * len(sh), [{"s": [-2, None, -2]}, "e"]):
+            for then in then_sets:
+                one(new, rev, then=then)
+    # (e) an axis longer than 255 (indices, counts and factors beyond one byte), 1-D so that the model's gathers stay small
+    L = 300
+    a = (np.arange(L, dtype=np.int64) * 7 % 301).astype("int16")
+    new = base_req("Dataset", [L], "int16", a=a)
+    for items in ([{"l": [299, 0, 256, -300]}], [{"s": [None, None, -128]}], [{"s": [255, 257, None]}], [{"s": [-257, None, -1]}],
+                  [{"s": [None, None, 256]}], [{"i": 300}], [{"l": [300]}], [{"s": [299, None, None]}], [{"s": [None, 127, -1]}]):
+        one(new, items, bare=True)
+    for ops in ([{"op": "bin", "f": {"one": 150}, "axes": None, "mean": False, "inplace": True}],
+                [{"op": "bin", "f": {"many": [128]}, "axes": {"one": -1}, "mean": False, "inplace": False, "follow": True},
+                 {"op": "pad", "arg": {"out": [257]}, "inplace": True}],
+                [{"op": "crop", "widths": [[128, -129]], "axes": None, "inplace": True}, {"op": "bin", "f": {"one": 43}, "axes": {"one": 0}, "mean": True, "inplace": True}],
+                [{"op": "pad", "arg": {"out": [513]}, "inplace": False, "follow": True}, {"op": "getitem", "ix": [{"s": [None, None, -257]}], "follow": True}],
+                [{"op": "crop", "widths": [[0, 256]], "axes": {"one": 0}, "inplace": False, "follow": True}, {"op": "bin", "f": {"one": 256}, "axes": None, "mean": False, "inplace": True}]):
+        run_history(ctx, drv, new, copy.deepcopy(ops), stream="signed-index", max_ops=len(ops))
+        n += 1
+    ctx.dist["signed-index:histories"] += n
+    ctx.extra["signed_index"] = ("negative / last / == length integers, reversed and negatively stepped slices with negative bounds, step = +-length, "
+                                 "lists with negative entries: full product on Dataset2d(5,3), one varying axis + Ellipsis positions on Dataset2d(3,5), "
+                                 "Dataset3d(3,4,5), Dataset(2,3,4,2); reversed datasets carried on through bin / crop / pad / resample / a second negative "
+                                 "step; a 1-D axis of length 300 (indices, factors, counts beyond one byte)")
+
+
+NARROW = [("int8", 100, 127, -128), ("uint8", 200, 255, 0), ("int16", 30000, 32767, -32768), ("uint16", 60000, 65535, 0), ("bool", 1, 1, 0)]
+
+
+def run_narrow(ctx, drv):
+    """narrow integer dtypes whose block sums leave the dtype range (np.sum widens; both variants must hand out the wide
+    sums): values at the upper (signed: also the lower) end of the range, sum and mean, in place and copying, carried on"""
+    n = 0
+    for dtype, lo, hi, mn in NARROW:
+        for cls, shape in (("Dataset2d", [4, 6]), ("Dataset4dstem", [2, 2, 4, 4])):
+            N = int(np.prod(shape))
+            vals = np.array([hi - (k % (hi - lo + 1)) for k in range(N)], dtype=np.int64)
+            if mn < 0:
+                vals[1::3] = mn + (np.arange(len(vals[1::3])) % 5)        # blocks far below the lower end as well
+            a = vals.reshape(shape).astype(dtype)
+            new = base_req(cls, shape, dtype, a=a, layout=LAYOUTS[n % len(LAYOUTS)])
+            nd = len(shape)
+            hists = [
+                [{"op": "bin", "f": {"one": 2}, "axes": None, "mean": False, "inplace": True},
+                 {"op": "bin", "f": {"one": 2}, "axes": {"one": -1}, "mean": False, "inplace": True}],
+                [{"op": "bin", "f": {"many": [2, 3]}, "axes": {"many": [nd - 2, nd - 1]}, "mean": False, "inplace": False, "follow": True},
+                 {"op": "getitem", "ix": ["e", {"s": [None, None, -1]}], "follow": True}],
+                [{"op": "bin", "f": {"one": 4}, "axes": {"one": nd - 2}, "mean": False, "inplace": False, "follow": False},
+                 {"op": "bin", "f": {"one": 4}, "axes": {"one": nd - 2}, "mean": True, "inplace": True}],
+                [{"op": "pad", "arg": {"pair": [1, 1]}, "inplace": True},
+                 {"op": "bin", "f": {"one": 3}, "axes": {"many": [nd - 1, nd - 2]}, "mean": False, "inplace": True},
+                 {"op": "copy", "follow": True}],
+                [{"op": "crop", "widths": [[0, 4]], "axes": {"one": -1}, "inplace": True},
+                 {"op": "bin", "f": {"many": [4]}, "axes": {"one": -1}, "mean": False, "inplace": True}],
+            ]
+            if cls == "Dataset4dstem":
+                hists += [[{"op": "dp", "kind": "mean", "attach": True, "follow": False}, {"op": "dp", "kind": "max", "attach": True, "follow": False},
+                           {"op": "vimg", "mask": arr_json(np.ones(shape[-2:], dtype=np.int64)), "attach": False, "follow": True}],
+                          [{"op": "bin", "f": {"one": 2}, "axes": {"many": [0, 1]}, "mean": False, "inplace": True},
+                           {"op": "dp", "kind": "mean", "attach": False, "follow": True}]]
+            for h in hists:
+                run_history(ctx, drv, new, copy.deepcopy(h), stream="narrow-dtype", max_ops=len(h))
+                n += 1
+    ctx.dist["narrow-dtype:histories"] += n
+    ctx.extra["narrow_dtype"] = "int8 / uint8 / int16 / uint16 / bool data at the ends of the dtype range: block sums beyond 127 / 255 / 32767 / 65535 (and below -128 / -32768)"
+
+
+def noop_calls(shape):
+    """calls that change nothing: the candidates for a `return self` / keep-the-buffer fast path"""
+    nd = len(shape)
+    full = {"s": [None, None, None]}
+    return [
+        ("pad:out==shape", {"op": "pad", "arg": {"out": list(shape)}}),
+        ("pad:zero", {"op": "pad", "arg": {"all": 0}}),
+        ("pad:zero-pairs", {"op": "pad", "arg": {"per": [[0, 0]] * nd}}),
+        ("pad:out<shape", {"op": "pad", "arg": {"out": [max(1, k - 1) for k in shape]}}),
+        ("crop:zero", {"op": "crop", "widths": [[0, 0]] * nd, "axes": None}),
+        ("crop:0-to-length", {"op": "crop", "widths": [[0, shape[-1]]], "axes": {"one": -1}}),
+        ("crop:no-axes", {"op": "crop", "widths": [], "axes": {"many": []}}),
+        ("bin:1", {"op": "bin", "f": {"one": 1}, "axes": None, "mean": False}),
+        ("bin:1-mean", {"op": "bin", "f": {"many": [1] * nd}, "axes": None, "mean": True}),
+        ("bin:no-axes", {"op": "bin", "f": {"many": []}, "axes": {"many": []}, "mean": False}),
+        ("resample:out==shape", {"op": "resample", "arg": {"out": list(shape)}, "axes": None}),
+        ("resample:factor-1", {"op": "resample", "arg": {"f1": 1}, "axes": None}),
+        ("copy", {"op": "copy"}),
+        ("copy:plain", {"op": "copy", "custom": False}),
+        ("getitem:list-all", {"op": "getitem", "ix": [{"l": list(range(shape[0]))}]}),
+    ]
+
+
+def fresh_probe(ctx, new_req, reason, op):
+    """the result of a call that "returns a new dataset" is a distinct object sharing nothing with the source: every way of
+    changing the result in place (element writes, augmented assignments, in-place operations) leaves the source bit-identical,
+    and every such change of the SOURCE leaves the result bit-identical.  Directly on the real objects (no model: values after
+    fourier_resample are not tracked there)."""
+    warnings.simplefilter("ignore")
+    case = {"new": new_req, "ops": [dict(op, inplace=False, follow=True)], "probe": reason}
+    for direction in ("write-result", "write-source"):
+        try:
+            src = make_new(new_req)
+            ret = apply_op(src, dict(op), inplace=False) if op["op"] in METHOD else apply_op(src, dict(op))
+        except Exception as e:  # noqa
+            ctx.pred_fail("noop-call-raises", f"{reason}: a call that changes nothing raised {err_name(e)}", case, observed=str(e)[:100], required="a new dataset")
+            return
+        ctx.count()
+        ctx.dist["fresh-probe:" + reason] += 1
+        if ret is None or ret is src:
+            ctx.pred_fail("result-is-source", f"{reason}: the copying variant did not return a NEW dataset", case,
+                          observed="None" if ret is None else "the receiver itself", required="a distinct dataset object")
+            return
+        victim, actor = (src, ret) if direction == "write-result" else (ret, src)
+        before = snapshot(victim)
+        u_before = list(victim.units)
+        steps = []
+        try:
+            if actor.array.size and actor.array.flags.writeable:
+                actor.array[(0,) * actor.array.ndim] = 7
+                steps.append("array[0,...]=7")
+            if actor.array.size and actor.array.flags.writeable:
+                actor.array[(-1,) * actor.array.ndim] += 1
+                steps.append("array[-1,...]+=1")
+            actor.origin[0] = 3
+            actor.sampling *= 2
+            actor.origin[-1] += 1
+            steps.append("origin/sampling element writes")
+            actor.units[-1] = "zz"
+            steps.append("units[-1]='zz'")
+            actor.bin(1, modify_in_place=True)
+            actor.pad(0, modify_in_place=True)
+            actor.crop(((0, 0),) * actor.ndim, modify_in_place=True)
+            if actor.array.size and actor.array.flags.writeable:
+                actor.array[(0,) * actor.array.ndim] = 5
+            steps.append("in-place bin(1) / pad(0) / crop(0), then array[0,...]=5")
+        except Exception as e:  # noqa
+            steps.append(f"({err_name(e)} while changing the other object)")
+        after = snapshot(victim)
+        if after != before or list(victim.units) != u_before:
+            ctx.pred_fail("noop-result-shares-source", f"{reason}: the dataset returned by a call that changes nothing shares state with its source "
+                          f"({direction}: {', '.join(steps)})", case, observed=snap_diff(before, after) or ["units"],
+                          required="source and returned dataset independent: bit-identical after changes to the other one")
+            return
+
+
+def run_noop(ctx, drv):
+    """performance-shortcut theme: calls whose result equals the receiver (pad to the current shape, crop by 0, bin by 1,
+    resample to the same shape, copies).  (1) inside histories compared with the model, the result retained / followed and then
+    changed in place, (2) `fresh_probe` on the real objects."""
+    bases = [("Dataset2d", [4, 6], "int32", "F"), ("Dataset4dstem", [2, 2, 4, 4], "float32", "C"), ("Dataset", [6], "float64", "flip")]
+    n = 0
+    for cls, shape, dtype, lay in bases:
+        new = base_req(cls, shape, dtype, layout=lay)
+        for reason, op in noop_calls(shape):
+            has_ip = op["op"] in METHOD
+            # the result is followed and changed; the source is watched (alias predicate, heap layer, model)
+            h1 = [dict(copy.deepcopy(op), follow=True, **({"inplace": False} if has_ip else {})),
+                  {"op": "elem", "what": "array[0]=7"}, {"op": "elem", "what": "origin[0]=3"}, {"op": "elem", "what": "sampling[:]=rev"}]
+            # the result is kept aside; the source is changed in place by the same no-op call, then element-wise
+            h2 = [dict(copy.deepcopy(op), follow=False, **({"inplace": False} if has_ip else {}))]
+            if has_ip:
+                h2.append(dict(copy.deepcopy(op), inplace=True))
+            h2 += [{"op": "elem", "what": "array[0]=7"}, {"op": "elem", "what": "sampling*=2"}]
+            for h in (h1, h2):
+                run_history(ctx, drv, new, h, stream="noop", max_ops=len(h))
+                n += 1
+            fresh_probe(ctx, new, reason, op)
+    ctx.dist["noop:histories"] += n
+
+
+def run_two_live(ctx):
+    """caches with two datasets alive: Dataset4dstem containers A and B of equal shape and calibration but different data,
+    `get_dp_*(attach=True)` interleaved; a container's attached pattern must be ITS pattern (shape, calibration of its
+    diffraction axes, values - no element write happens between attaching and reading), also after a copy got new data of the
+    same shape and after an in-place operation on one of the two."""
+    warnings.simplefilter("ignore")
+    import quantem.core.datastructures as qd
+    shape = (2, 3, 4, 4)
+    N = int(np.prod(shape))
+    case = {"new": {"cls": "Dataset4dstem", "shape": list(shape)}, "ops": [{"op": "dp"}], "probe": "two-live"}
+
+    def mk(mult, dtype):
+        a = ((np.arange(N, dtype=np.int64) * mult) % 13).reshape(shape).astype(dtype)
+        return qd.Dataset4dstem.from_array(a, origin=[0.5, 1.5, 2.5, 3.5], sampling=[0.5, 0.75, 1.0, 1.25], units=["nm", "A", "mrad", "s"])
+
+    def check(ds, who, nm):
+        ctx.count()
+        ctx.dist["two-live:checks"] += 1
+        want = {"mean": np.mean, "max": np.max, "median": np.median}[nm](ds.array, axis=(0, 1))
+        for how, d2 in (("get", getattr(ds, "get_dp_" + nm)(attach=True)), ("property", getattr(ds, "dp_" + nm))):
+            o, s, u = cal_of(ds)
+            ok_cal = tuple(d2.shape) == tuple(ds.shape[-2:]) and cal_of(d2) == (o[2:], s[2:], u[2:])
+            ok_val = d2.array.shape == want.shape and np.allclose(d2.array, want, rtol=1e-6, atol=0)
+            if not (ok_cal and ok_val and type(d2).__name__ == "Dataset2d"):
+                ctx.pred_fail("dp-cache-wrong-owner", f"{who}.dp_{nm} ({how}) is not the {nm} diffraction pattern of {who} "
+                              "while another Dataset4dstem of equal shape and calibration is alive", dict(case, who=who, kind=nm),
+                              observed={"shape": list(d2.shape), "calibration_ok": ok_cal, "values_ok": bool(ok_val)},
+                              required="the pattern of the dataset asked")
+                return False
+        return True
+    try:
+        for dtype in ("int32", "float64"):
+            A, B = mk(5, dtype), mk(7, dtype)
+            for nm in ("mean", "max", "median"):
+                if not (check(A, "A", nm) and check(B, "B", nm) and check(A, "A", nm)):
+                    return
+            C = A.copy()
+            C.array = np.array(B.array)              # same shape, other values
+            for nm in ("mean", "max", "median"):
+                if not (check(C, "C=A.copy() with new data", nm) and check(A, "A", nm)):
+                    return
+            D = B.copy()
+            D.bin(2, axes=(2, 3), modify_in_place=True)
+            B.crop(((1, 0),), axes=(3,), modify_in_place=True)
+            for nm in ("mean", "max", "median"):
+                if not (check(D, "D=B.copy() binned in place", nm) and check(B, "B cropped in place", nm) and check(A, "A", nm)):
+                    return
+            E = D[:, ::-1]
+            for nm in ("mean", "max"):
+                if not (check(E, "E=D[:, ::-1]", nm) and check(D, "D", nm)):
+                    return
+    except Exception as e:  # noqa
+        ctx.pred_fail("dp-property-raises", f"attached diffraction patterns with two live datasets: {err_name(e)}", case, observed=str(e)[:120], required="Dataset2d")
+
+
 PINNED = {
     # what the model takes for granted about the public entry points: parameter names, order and defaults
     "Dataset.from_array": [("array", "<req>"), ("name", None), ("origin", None), ("sampling", None), ("units", None), ("signal_units", "arb. units")],
@@ -1619,11 +1940,19 @@ def run(ctx):
     drv = Driver("C03")
     try:
         if not ctx.search_mode:
-            stream_signatures(ctx)
-            run_expand(ctx, drv)
-            run_reject(ctx, drv)
-            run_index_exhaustive(ctx, drv)
-            run_systematic(ctx, drv, 2)
+            import time
+            timing = {}
+            for nm, fn in (("signatures", lambda: stream_signatures(ctx)), ("expand", lambda: run_expand(ctx, drv)), ("reject", lambda: run_reject(ctx, drv)),
+                           ("index-exhaustive", lambda: run_index_exhaustive(ctx, drv)), ("signed-index", lambda: run_signed_index(ctx, drv)),
+                           ("narrow-dtype", lambda: run_narrow(ctx, drv)), ("noop", lambda: run_noop(ctx, drv)), ("two-live", lambda: run_two_live(ctx)),
+                           ("systematic-2", lambda: run_systematic(ctx, drv, 2))):
+                t0 = time.time()
+                fn()
+                timing[nm] = round(time.time() - t0, 2)
+            ctx.extra["fixed_block_seconds"] = timing
+            import os, sys
+            if os.environ.get("C03_TIMING"):
+                print("C03 fixed blocks (s):", timing, {k: v for k, v in ctx.dist.items() if "histories" in k or k.startswith("two-live")}, file=sys.stderr)
             if ctx.thorough():
                 run_systematic(ctx, drv, 3)
             ctx.extra["bounded_exhaustive"] = ("all sequences of length 2 over a 13-16 letter operation alphabet on 5 base datasets"
@@ -1643,6 +1972,12 @@ def replay(ctx, rep):
     from qv.driver import Driver
     case = rep.get("case") or (rep.get("correspondence_disagreements") or rep.get("disagreements") or [{}])[0].get("case")
     if not case:
+        return True
+    if case.get("probe") == "two-live":
+        run_two_live(ctx)
+        return True
+    if case.get("probe"):
+        fresh_probe(ctx, case["new"], case["probe"], {k: v for k, v in case["ops"][0].items() if k not in ("inplace", "follow")})
         return True
     drv = Driver("C03")
     try:
